@@ -861,6 +861,19 @@ def rule_nothing_dropped(check):
                 if not any(t in cpath for t in ("iter::", "slice::", "vec::Vec", "Iterator")):
                     continue
                 if any(t in rty for t in ("ExprOrSpread", "swc_ecma_ast::Expr")):
+                    # only operand lists of the *input* matter: a list the rewriter fills itself (its
+                    # assignations, the lowering's own state) holds nothing that could be left out
+                    src = hir.peel(x["recv"])
+                    while src.get("k") == "MethodCall" and src["method"] in ("iter", "iter_mut", "into_iter", "as_slice", "as_ref", "clone"):
+                        src = hir.peel(src["recv"])
+                    pl = hir.place(src, transparent=False) or ""
+                    root = pl.split(".")[0]
+                    if "#" in root:
+                        bnd = f.bindings().get(int(root.split("#")[1]))
+                        if bnd and bnd["name"] == "self" and pl.count(".") >= 1:
+                            continue  # a field of the transforming visitor itself
+                        if bnd and bnd["origin"][0] == "let" and bnd["origin"][1] is not None and hir.is_call(hir.peel(bnd["origin"][1])) and (hir.callee_name(hir.peel(bnd["origin"][1])) in ("new", "with_capacity")):
+                            continue  # a vector created here
                     n += 1
                     key = "%s/partial/%s/%s" % (R, f.name, x["method"])
                     if f.name == "get_expression_parts_from_call_or_apply" and x["method"] == "skip" and hir.lit_value(hir.call_args(x)[1]) == 1:
